@@ -145,3 +145,36 @@ void h_replace_cell_cell(void) {
     VF_REACHED();
 }
 #endif
+
+#ifdef VF_ENTRY_h_replace_raw_by_cell
+/* Library::replace_cell(RawCell*, Cell*): the raw cell c16_oldraw (in the library's raw-cell array, named by
+ * IN_rawname, different from both cell names) is replaced by a new Cell named IN_newname */
+static RawCell c16_oldraw;
+static Cell c16_newcell2;
+void h_replace_raw_by_cell(void) {
+    c16_state();
+    VF_IN(u8, IN_newname);
+    VF_ASSUME(c16_letter(IN_newname));
+    VF_ASSUME(IN_rawname != IN_cname[0] && IN_rawname != IN_cname[1]);   /* names are unique in a library */
+    memset(&c16_oldraw, 0, sizeof c16_oldraw);
+    c16_oldraw.name = c16_rawname;
+    c16_lib.rawcell_array.count = 1; c16_rawp[0] = &c16_oldraw;
+    memset(&c16_newcell2, 0, sizeof c16_newcell2);
+    c16_newcell2.name = c16_str(IN_newname);
+    Library *this_ = &c16_lib;
+    Library__replace_cell__RawCell_p_Cell_p(this_, &c16_oldraw, &c16_newcell2);
+    VF_ASSERT(c16_lib.rawcell_array.count == 0, "the raw cell left the library");
+    VF_ASSERT(c16_lib.cell_array.count == NC + 1 && c16_lib.cell_array.items[0] == &c16_cell[0] && c16_lib.cell_array.items[1] == &c16_cell[1] && c16_lib.cell_array.items[NC] == &c16_newcell2, "the new cell joined the library, the others stay");
+    for (int i = 0; i < NC; i++) for (int j = 0; j < NR; j++) if (j < IN_nref[i]) {
+        Reference *r = &c16_ref[i][j];
+        if (IN_rtype[i][j] == 0) {
+            VF_ASSERT(r->type == ReferenceType_Cell && r->cell == &c16_cell[IN_rtgt[i][j]], "by-pointer references to the other cells are untouched");
+        } else if (IN_rtype[i][j] == 2) {
+            VF_ASSERT(r->type == ReferenceType_Name, "by-name references stay by-name");
+            if (OLDNAME(i, j) == IN_rawname) VF_ASSERT(r->name[0] == (char)IN_newname && r->name[1] == 0, "by-name references to the raw cell carry the replacement's name");
+            else VF_ASSERT(r->name[0] == (char)OLDNAME(i, j) && r->name[1] == 0, "other by-name references are untouched");
+        }
+    }
+    VF_REACHED();
+}
+#endif
